@@ -15,7 +15,7 @@ import numpy as np
 from . import core, pylite_tie
 from .core import Case, cD, cOD, cN, clist, cbool
 
-obligations = pylite_tie.trend_obligations   # source-regenerated tie (harness/pylite_tie.py)
+obligations = pylite_tie.c03_obligations   # source-regenerated ties (harness/pylite_tie.py): trend_obligations + Trend.predict / Trend.jacobian
 ID = "C03"
 PROPS_FILE = "Props/C03.v"
 IMPORTS = "From Verde Require Import Model.Trend Model.KernelCases."
